@@ -115,7 +115,8 @@ def counter_verify(chk, F, rule, cfg):
                 for e in pushes:
                     msg = e.data[2][1]
                     okv = strip(msg)[0] == 'agg' and strip(msg)[3] == 'FailedVerification'
-                    has_path = mentions(msg, lambda x: x[0] == 'ref' and x[1][0] == ('ptr', ('param', 0, 2)) and x[1][1][-1:] == (('f', 'path'),))
+                    has_path = mentions(msg, lambda x: x[0] == 'ref' and x[1][0] == ('ptr', ('param', 0, 2)) and x[1][1][-1:] == (('f', 'path'),)) or \
+                        mentions(msg, lambda x: x == ('param', 0, 2) or (x[0] == 'ref' and x[1] == (('local', 0, 2), ())))      # (handed the path itself instead of the info that contains it)
                     has_pat = mentions(msg, lambda x: is_call(x, r'core::ops::(Fn::call|FnMut::call_mut|FnOnce::call_once)$'))
                     has_actual = mentions(msg, is_actual)
                     has_bound = mentions(msg, lambda x: is_minimum(x))
@@ -173,8 +174,10 @@ def fnmocker_verify_pipeline(chk, F, rule, cfg, fn, paths):
         chk.ob(rule, 'MockNeverCalled is pushed iff no pattern of the method was ever matched', dec is not None and len(pushes) == (1 if dec else 0), config=cfg, fn=fn, site='never-called',
                what='never-called: total==0 is %s but %d pushes' % (dec, len(pushes)), found={'total_is_zero': dec, 'pushes': len(pushes)})
         for e in pushes:
-            info = dict(strip(e.data[2][1])[4]).get('info', ('unk', ''))
-            chk.ob(rule, 'MockNeverCalled names this method', field_path(info) == (('param', 0, 1), ['info']), config=cfg, fn=fn, site='never-called.info', what='info %s' % show(info), found=show(info))
+            pay_ = dict(strip(e.data[2][1])[4])
+            info = pay_.get('info', pay_.get('path', ('unk', '')))
+            # (the error carries this method's info, or just the part of it that messages print: its Trait::method path)
+            chk.ob(rule, 'MockNeverCalled names this method', field_path(info) in ((('param', 0, 1), ['info']), (('param', 0, 1), ['info', 'path'])), config=cfg, fn=fn, site='never-called.info', what='info %s' % show(info), found=show(info))
     chk.ob(rule, 'FnMocker::verify iterates its patterns', ok_any, config=cfg, fn=fn, site='loop', unrecognised=True, what='no iteration found')
     callers = [(f.root if f.kind == 'closure' else f.defp, bb) for f, bb, t in F.callers_of('counter::CallCounter::verify')]
     chk.ob(rule, 'CallCounter::verify is only called by FnMocker::verify', len(callers) == 1 and callers[0][0] == 'fn_mocker::FnMocker::verify', config=cfg, site='callers', what='callers %s' % callers, found=callers)
@@ -265,8 +268,10 @@ def fnmocker_verify(chk, F, rule, cfg):
                 chk.ob(rule, 'MockNeverCalled is pushed iff no pattern of the method was ever matched', len(pushes) == (1 if is_zero else 0), config=cfg, fn=fn, site='never-called',
                        what='never-called: total==0 is %s but %d pushes' % (is_zero, len(pushes)), found={'total_is_zero': is_zero, 'pushes': len(pushes)})
         for e in pushes:
-            info = dict(strip(e.data[2][1])[4]).get('info', ('unk', ''))
-            chk.ob(rule, 'MockNeverCalled names this method', field_path(info) == (('param', 0, 1), ['info']), config=cfg, fn=fn, site='never-called.info', what='info %s' % show(info), found=show(info))
+            pay_ = dict(strip(e.data[2][1])[4])
+            info = pay_.get('info', pay_.get('path', ('unk', '')))
+            # (the error carries this method's info, or just the part of it that messages print: its Trait::method path)
+            chk.ob(rule, 'MockNeverCalled names this method', field_path(info) in ((('param', 0, 1), ['info']), (('param', 0, 1), ['info', 'path'])), config=cfg, fn=fn, site='never-called.info', what='info %s' % show(info), found=show(info))
     chk.ob(rule, 'FnMocker::verify iterates its patterns', seen_iter, config=cfg, fn=fn, site='loop', unrecognised=True, what='no iteration found')
     callers = [((f.root if f.kind in ('closure', 'promoted') else f.defp), bb) for f, bb, t in F.callers_of('counter::CallCounter::verify')]      # (a call inside a closure literal belongs to the function the closure is written in)
     chk.ob(rule, 'CallCounter::verify is only called by FnMocker::verify', len(callers) == 1 and callers[0][0] == 'fn_mocker::FnMocker::verify', config=cfg, site='callers', what='callers %s' % callers, found=callers)
